@@ -4,8 +4,15 @@ import (
 	"bufio"
 	"fmt"
 	"io"
+	"os"
 	"os/exec"
 	"strings"
+	"time"
+)
+
+var (
+	driverReplyTimeout = 90 * time.Second
+	driverHangFile     = "/verif/.build/driver-hang.txt"
 )
 
 // Driver is the Lean model behind a line protocol.
@@ -55,12 +62,34 @@ func (d *Driver) AskBatch(reqs []Sexp) ([]Sexp, error) {
 		errc <- w.Flush()
 	}()
 	out := make([]Sexp, 0, len(reqs))
-	for range reqs {
-		line, err := d.out.ReadString('\n')
-		if err != nil {
-			return nil, fmt.Errorf("driver read: %w", err)
+	type lineOrErr struct {
+		line string
+		err  error
+	}
+	lines := make(chan lineOrErr, 64)
+	go func() {
+		for range reqs {
+			line, err := d.out.ReadString('\n')
+			lines <- lineOrErr{line, err}
+			if err != nil {
+				return
+			}
 		}
-		out = append(out, ParseSexp(strings.TrimRight(line, "\n")))
+	}()
+	for i := range reqs {
+		select {
+		case l := <-lines:
+			if l.err != nil {
+				return nil, fmt.Errorf("driver read: %w (request %d: %.2000s)", l.err, i, reqs[i].String())
+			}
+			out = append(out, ParseSexp(strings.TrimRight(l.line, "\n")))
+		case <-time.After(driverReplyTimeout):
+			// the model does not answer: a defect of the model (or an input outside what it supports), never
+			// silently waited for
+			_ = d.cmd.Process.Kill()
+			_ = os.WriteFile(driverHangFile, []byte(reqs[i].String()+"\n"), 0o644)
+			return nil, fmt.Errorf("driver gave no reply within %s to request %d (saved to %s): %.2000s", driverReplyTimeout, i, driverHangFile, reqs[i].String())
+		}
 	}
 	if err := <-errc; err != nil {
 		return nil, err
